@@ -445,3 +445,15 @@ Qed.
 Lemma spec_next_other_input s i r : (forall f, i <> Frame f) ->
   spec_next s i r = if conn_err r then die s else s.
 Proof. intro H. destruct i as [f| |code]; [exfalso; eapply H; reflexivity | |]; destruct r; reflexivity. Qed.
+
+(* ---------- what a list of sends does to one stream ---------- *)
+
+Definition on_id (id : N) (o : sent) : bool := match sent_sid o with Some j => j =? id | None => false end.
+
+Lemma st_of_fold_sent l : forall s id, wf s ->
+  st_of (fold_left spec_sent l s) id = fold_left sent_st (filter (on_id id) l) (st_of s id).
+Proof.
+  induction l as [|o l IH]; intros s id W; cbn [fold_left filter]; [reflexivity|].
+  rewrite IH by (apply wf_spec_sent, W). rewrite st_of_spec_sent by exact W. unfold on_id at 2.
+  destruct (match sent_sid o with Some j => j =? id | None => false end); reflexivity.
+Qed.
